@@ -345,6 +345,23 @@ def matrix_rule(syn, prop="C16", crate=None):
     with open(os.path.join(VERIF, "reference/incompat.json")) as fh:
         ref = json.load(fh)["matrix"]
     cur = extract_matrix(syn)
+
+    def data_driven(kind):
+        """the validity check (the functions only it uses included) walks a list of keys/conditions with iterator
+        adaptors: which combinations it rejects is decided by data and closures, not by one branch per rule"""
+        if crate is None:
+            return False
+        roots = [b.path for b in crate.bodies if re.search(r"%s as attr::Attr>::assert_validity$" % kind, b.path)]
+        grp = set()
+        for p0 in roots:
+            grp |= set(crate.owned_by(p0))
+            for blk, t in crate.body(p0).calls():
+                for hb in crate.call_targets(crate.body(p0), t, ()):
+                    if kind in hb.path:
+                        grp |= set(crate.owned_by(hb.path)) | {hb.path}
+        return any(fn_matches(t, r"iter::Iterator::(find|find_map|filter|any|all|position|next|try_for_each|for_each)$", r"Iterator>::next$")
+                   for b in crate.bodies if b.path in grp for blk, t in b.calls() if not b.is_cleanup(blk))
+    undecided_kinds = set()
     for kind, rows in ref.items():
         have = cur.get(kind)
         if have is None:
@@ -363,10 +380,16 @@ def matrix_rule(syn, prop="C16", crate=None):
                 if msgs is not None and any(all(any(w in m_ for w in ATOM_WORDS.get(a, [a])) for a in key) for m_ in msgs):
                     r.inst(attr=kind, rejects=list(key), present=None, note="table-driven check: a row with a message naming these attributes exists; its condition is data and is not evaluated")
                     continue
+            if not ok and data_driven(kind):
+                r.inst(attr=kind, rejects=list(key), present=None, note="the validity check is driven by a list of keys and closures: this combination is not decided")
+                undecided_kinds.add(kind)
+                continue
             r.inst(attr=kind, rejects=list(key), present=ok)
             if not ok:
                 r.fail(prop, "rejection-missing %s %s" % (kind, "+".join(key)),
                        "%s::assert_validity no longer has an error site guarded by {%s}: the combination documented as incompatible would be accepted" % (kind, ", ".join(key)))
+    for kind in sorted(undecided_kinds):
+        r.fail(prop, "anchor-missing validity rules of %s" % kind, "%s::assert_validity decides through a list of keys and iterator closures: the rejected combinations are not read off branches" % kind)
     r.floor = 41
     return r
 
